@@ -10,6 +10,7 @@ import (
 	"github.com/internetarchive/Zeno/internal/pkg/controler/pause"
 	"github.com/internetarchive/Zeno/internal/pkg/log"
 	"github.com/internetarchive/Zeno/internal/pkg/stats"
+	"github.com/internetarchive/Zeno/internal/pkg/verifhook"
 )
 
 var (
@@ -53,7 +54,9 @@ func StartWatchWARCWritingQueue(pauseCheckInterval time.Duration, pauseTimeout t
 						return
 					}
 				case <-pauseTicker.C:
+					verifhook.At("wwq.tick")
 					queueSize := archiver.GetWARCWritingQueueSize()
+					verifhook.Obs("wwq.verdict", queueSize, maxQueueSize, paused)
 
 					logger.Debug("checking queue size for pause", "queue_size", queueSize, "max_queue_size", config.Get().WorkersCount, "paused", paused)
 
@@ -103,6 +106,7 @@ func StartWatchWARCWritingQueue(pauseCheckInterval time.Duration, pauseTimeout t
 
 // StopWARCWritingQueueWatcher stops the WARC writing queue watcher by canceling the context and waiting for the goroutine to finish
 func StopWARCWritingQueueWatcher() {
+	verifhook.At("wwq.stop.enter")
 	wwqCancel()
 	wwqWg.Wait()
 }
